@@ -150,7 +150,9 @@ def check_record(args):
             _, ll = listing(m)
             if sorted(ll) != [x + 1 for x in exp]:
                 out['mism'].append(('distributed-load-listing', dict(args=[opt], listed=ll, spec=[x + 1 for x in exp])))
-        for b in (['--attach-load=1,%d' % (N + 1)], ['--attach-load=1,0'],
+        for b in (['--attach-load=1,0,%d' % tags[0]], ['--attach-load=1,-1,%d' % tags[0]],
+                  ['--attach-load=1,-%d,%d' % (len(opulses[0]) + 3, tags[0])], ['--attach-load=1,-1'],
+                  ['--attach-load=1,%d' % (N + 1)], ['--attach-load=1,0'],
                   ['--attach-load=1,1,%d' % (max(tags) + 1)],
                   ['--attach-load=1,%d,%d' % (len(opulses[0]) + 1, tags[0])]):
             m, txt = run_main(base + ['--excitation-pulse=1', '--load=7+3j'] + b)
